@@ -46,4 +46,9 @@ def cfgAccept (L : CfgLayout) (sector : Bytes) : Bool :=
   !allZero ((sector.drop (6 + L.guidLen)).take L.authLen) &&
   !allZero ((sector.drop 6).take L.guidLen)
 
+/-- the commit step of the config-mode form handler (supla_esp_recv_callback): the candidate record `new`
+    replaces the configuration in RAM; `guarded` = the copy sits inside `if (1 == supla_esp_cfg_save(&new_cfg))` -/
+def formCommit (guarded : Bool) (ram new : Bytes) (saveOk : Bool) : Bytes :=
+  if guarded then (if saveOk then new else ram) else new
+
 end SuplaVerif
